@@ -61,6 +61,13 @@ class Tgt:
             lp = lambda x: float(-0.5 * np.sum(x ** 2 / var))
             gr = lambda x: -x / var
             d = 2
+        elif name == "pole1":
+            # unguarded pole: the log-density overflows to +inf on part of the line (such leaves sit inside every slice; only
+            # the explicit finiteness test keeps them out of the chain); the gradient stays finite
+            thr = [1.7371, 1.6129, 1.8643][k]
+            lp = lambda x: float("inf") if x[0] > thr else float(-0.5 * x[0] ** 2)
+            gr = lambda x: -x
+            d = 1
         elif name == "banana2":
             b = [0.5, 0.25, 0.75][k]
             lp = lambda x: float(-0.5 * (x[0] ** 2 / 4.0 + (x[1] + b * x[0] ** 2 - 1.0) ** 2))
@@ -87,6 +94,7 @@ class Tgt:
 
 BASES = {
     "gauss1": [([0.4], [0.9]), ([-1.1], [0.3]), ([0.2], [-1.7])],
+    "pole1": [([1.2], [1.6]), ([0.3], [2.0]), ([1.0], [-1.9])],      # orbits that enter the +inf region
     "gauss2c": [([0.5, -0.3], [0.8, -0.6]), ([-0.7, 0.9], [0.2, 1.1]), ([1.2, 0.4], [-0.9, -0.3])],
     "banana2": [([0.6, 0.4], [0.7, -0.5]), ([-1.0, 0.2], [0.4, 0.9]), ([0.1, 1.3], [-1.2, 0.3])],
     # found by an offline scan of the reference model: these orbits contain sub-trees whose SECOND half stops
@@ -149,7 +157,7 @@ class Orbit:
     def H(self, k):
         th, r, _ = self.get(k)
         v = self.t.lp(th) - 0.5 * float(r @ r)
-        return v if np.isfinite(v) else -np.inf
+        return v if (np.isfinite(v) or v == np.inf) else -np.inf
 
     def index_of(self, th, lo, hi):
         hit = [k for k in range(lo, hi + 1) if np.all(np.isfinite(self.theta(k))) and close(self.theta(k), th, 1e-8, atol=1e-8)]
@@ -184,6 +192,8 @@ def ref_nuts(orb, k, ell, D, decide, finite_guard, cov=None):
             new = idx + v
             evaluated.append(new)
             Hn = orb.H(new)
+            if Hn == np.inf:
+                hit("leaf-with-log-density-+inf")
             n_ = int(ell <= Hn)
             s_ = int(ell < 1000 + Hn)
             if not n_:
@@ -265,6 +275,9 @@ def cells(tier, seed):
         for off in (-800.0, 800.0):
             for t, eps, D in ((("gauss2c", 0.6, 1),) if tier == "quick" else (("gauss2c", 0.6, 1), ("gauss2c", 1.3, 2), ("banana2", 0.6, 2), ("gauss1", 2.1, 1))):
                 yield {"iface": iface, "target": t, "eps": eps, "D": D, "base": 0, "hist": "fresh", "cat": k, "tier": tier, "off": off}
+        # a target whose log-density reaches +inf (pole): non-finite states are never selected (no invariance claim there)
+        for eps, D, b in (((0.4, 2, 0),) if tier == "quick" else ((0.4, 2, 0), (0.4, 1, 1), (0.8, 2, 1), (0.4, 3, 2))):
+            yield {"iface": iface, "target": "pole1", "eps": eps, "D": D, "base": b, "hist": "fresh", "cat": k, "tier": tier, "pole": True}
         # representation of the initial point: integer-valued start given as integer array / list / float array
         for rep in ("int", "list", "float"):
             for t, eps, D in ((("gauss2c", 0.6, 1),) if tier == "quick" else (("gauss2c", 0.6, 1), ("gauss2c", 0.6, 2), ("banana2", 0.6, 1), ("gauss1", 0.6, 1))):
@@ -372,7 +385,7 @@ def eval_cell(cell):
             nontrivial = nontrivial or multi
             res.state("l=%.6g:k=%d" % (ell, kk))
         # double stochasticity: columns whose possible predecessors were all started
-        for col in range(-c, c + 1):
+        for col in (range(-c, c + 1) if not cell.get("pole") else ()):
             if col not in S or any((kk in S and np.isfinite(Hs[kk])) and kk not in P for kk in range(col - W, col + W + 1)):
                 continue
             tot = sum(P[kk].get(col, 0.0) for kk in P)
